@@ -18,8 +18,6 @@ pub fn parse_nats<T: std::str::FromStr>(s: &str) -> Option<Vec<T>> {
 /// Runs `f` on every stdin line inside `catch_unwind`; a panic becomes the reply `panic`.
 pub fn run_lines(f: impl Fn(&[&str]) -> Option<String> + std::panic::RefUnwindSafe) {
     let stdin = std::io::stdin();
-    let stdout = std::io::stdout();
-    let mut out = std::io::BufWriter::new(stdout.lock());
     std::panic::set_hook(Box::new(|_| {}));
     for line in stdin.lock().lines() {
         let line = line.unwrap();
@@ -30,9 +28,12 @@ pub fn run_lines(f: impl Fn(&[&str]) -> Option<String> + std::panic::RefUnwindSa
             Ok(None) => "bad-op".to_string(),
             Err(_) => "panic".to_string(),
         };
-        writeln!(out, "{reply}").unwrap();
+        // Replies are prefixed and written through the same line-buffered stdout handle the code
+        // under test uses (parol reports resolved LALR conflicts with println!), so that lines never
+        // interleave; the orchestrator keeps only the `@@ ` lines.
+        println!("@@ {reply}");
     }
-    out.flush().unwrap();
+    std::io::stdout().flush().unwrap();
 }
 
 /// Standard command line of a property module: `gen <seed> <quick|thorough>` prints cases,
@@ -44,10 +45,18 @@ pub fn standard_cli(
 ) {
     match args.first().map(|s| s.as_str()) {
         Some("gen") => {
+            // generators probe the real pipeline under catch_unwind: keep panics silent
+            std::panic::set_hook(Box::new(|_| {}));
             let seed: u64 = args.get(1).and_then(|s| s.parse().ok()).unwrap_or(0);
             let thorough = args.get(2).map(|s| s == "thorough").unwrap_or(false);
-            let mut s = generate(seed, thorough).join("\n");
-            s.push('\n');
+            // case lines are prefixed for the same reason as replies (see `run_lines`)
+            let cases = generate(seed, thorough);
+            let mut s = String::new();
+            for c in cases {
+                s.push_str("@@ ");
+                s.push_str(&c);
+                s.push('\n');
+            }
             std::io::stdout().write_all(s.as_bytes()).unwrap();
         }
         Some("run") => run_lines(run_case),
